@@ -88,7 +88,7 @@ theorem C08_sigquit_callback_retries (rec : Rec) (n : String) : runReady1 rec (.
 /-! ### 2. `stopping` is set by an accepted quit and holds for ever -/
 
 theorem stoppingStable : ArbStable (fun a => a.stopping = true) :=
-  ⟨⟨fun _ _ => rfl, fun _ _ => rfl, fun _ _ h => h, fun _ _ _ h => h, fun _ _ h => h⟩, fun _ h => h⟩
+  ⟨⟨fun _ _ => rfl, fun _ _ => rfl, fun _ _ h => h, fun _ _ h => h, fun _ _ h => h, fun _ _ _ h => h, fun _ _ h => h⟩, fun _ h => h⟩
 
 /-- **`stopping` is for ever**: once set it is never cleared, whatever happens afterwards — requests,
     signals, timers, deaths (only `setStopping` / `setRestarting` write it, and only to true). -/
@@ -303,7 +303,7 @@ theorem C08_close_is_idempotent (s : State) (h1 : s.a.ctlClosed = true) (h2 : s.
     simp_all
 
 theorem closedStable : ArbStable (fun a => a.ctlClosed = true ∧ a.pubClosed = true) :=
-  ⟨⟨fun _ h => h, fun _ h => h, fun _ _ h => h, fun _ _ _ h => h, fun _ _ h => h⟩, fun _ _ => ⟨rfl, rfl⟩⟩
+  ⟨⟨fun _ h => h, fun _ h => h, fun _ _ h => h, fun _ _ h => h, fun _ _ h => h, fun _ _ _ h => h, fun _ _ h => h⟩, fun _ _ => ⟨rfl, rfl⟩⟩
 
 /-- **closed is for ever**: once the control and PUB sockets are closed they stay closed along every
     continuation of the run. -/
